@@ -19,7 +19,7 @@ from . import universe
 UTC = datetime.timezone.utc
 MAX_TS_S = 253402300799  # 9999-12-31T23:59:59Z
 
-SHAPES = ("tiny", "small", "medium", "boundary", "wide", "nully", "taggy", "big", "long_array")
+SHAPES = ("tiny", "small", "medium", "boundary", "wide", "nully", "taggy", "big", "long_array", "small", "medium", "huge")
 
 
 def draw_shape(rng) -> dict:
@@ -48,6 +48,9 @@ def draw_shape(rng) -> dict:
         base.update(nondefault_rate=0.95, null_rate=0.05, fan=2)
     elif name == "big":
         base.update(str="big", fan=2, budget=30)
+    elif name == "huge":
+        # one bytes/records value at a power-of-two boundary >= 64 KiB (strings stay small)
+        base.update(str="huge", fan=1, budget=20, null_rate=0.05, nondefault_rate=0.7)
     elif name == "long_array":
         # one array with 126..130 elements (two-byte compact array count)
         base.update(fan=2, budget=60, long_arrays=1, null_rate=0.1, nondefault_rate=0.8)
@@ -116,6 +119,8 @@ def _length(ctx: _Ctx, flexible: bool, legacy_max: int) -> int:
     s = ctx.shape["str"]
     if s == "boundary":
         return rng.choice((0, 1, 2, 126, 127, 128, 129, 255, 256))
+    if s == "huge":
+        return rng.randint(0, 12)
     if s == "big" and ctx.big_left > 0 and rng.random() < 0.5:
         ctx.big_left -= 1
         if flexible:
@@ -207,9 +212,15 @@ def datetime_from(s: int, off_min: int) -> datetime.datetime:
     return dt
 
 
+_HUGE_SIZES = (65535, 65536, 65537, 131072, 131073, 196608)
+
+
 def _gen_leaf(ctx: _Ctx, cls: type, tp, kafka_type: str):
     rng = ctx.rng
     flexible = cls.__flexible__
+    if kafka_type in ("bytes", "records") and ctx.shape["str"] == "huge" and ctx.big_left > 0:
+        ctx.big_left -= 1
+        return rng.randbytes(rng.choice(_HUGE_SIZES))
     if kafka_type in ("int8", "int16", "int32", "int64", "uint8", "uint16", "uint32", "uint64"):
         lo, hi = _int_range(tp, kafka_type)
         return _gen_int(rng, lo, hi)
